@@ -656,6 +656,21 @@ func (b *Builder) MarkFileAsChangedOrRemoved(path string) {
 	b.opts.changedOrRemovedFiles = append(b.opts.changedOrRemovedFiles, path)
 }
 
+// MarkFailed records that the caller could not hand over the complete set of
+// documents (for example because reading one of them failed). Finish then
+// discards the shards built so far instead of installing an index that lacks
+// documents. The first error wins; a nil error is ignored.
+func (b *Builder) MarkFailed(err error) {
+	if err == nil {
+		return
+	}
+	b.errMu.Lock()
+	defer b.errMu.Unlock()
+	if b.buildError == nil {
+		b.buildError = err
+	}
+}
+
 // Finish creates a last shard from the buffered documents, and clears
 // stale shards from previous runs. This should always be called, also
 // in failure cases, to ensure cleanup.
